@@ -56,6 +56,30 @@ def _spec(rng, kind, names):
     return spec
 
 
+def dotted_glyphset(rng):
+    """bases with top / bottom anchors, marks with the attaching anchors, and -- half of the time -- an existing U+25CC
+    glyph that lacks some of the anchors the marks need (the filter then has to add them to the glyph SET it was given)"""
+    from ..absfont import PS
+
+    def boxc(x0, y0, w, h):
+        return [[x0 * PS, y0 * PS, "line"], [(x0 + w) * PS, y0 * PS, "line"], [(x0 + w) * PS, (y0 + h) * PS, "line"], [x0 * PS, (y0 + h) * PS, "line"]]
+
+    glyphs = {}
+    classes = rng.sample(["top", "bottom", "ogonek"], rng.randint(1, 3))
+    for k, b in enumerate(rng.sample(["a", "e", "o", "A"], rng.randint(1, 3))):
+        glyphs[b] = {"cs": [boxc(20, 0, 300, 500)], "comps": [], "w": rng.randint(4, 6) * 100 * PS, "h": 0, "u": [0x61 + k],
+                     "anchors": [{"n": c, "x": rng.randint(4, 12) * 25 * PS, "y": rng.randint(0, 24) * 25 * PS} for c in classes if rng.random() < 0.8]}
+    for k, c in enumerate(classes):
+        if rng.random() < 0.9:
+            glyphs[c + "comb"] = {"cs": [boxc(-80, 520, 60, 60)], "comps": [], "w": 0, "h": 0, "u": [0x300 + k],
+                                  "anchors": [{"n": "_" + c, "x": -50 * PS, "y": 500 * PS}]}
+    if rng.random() < 0.55:
+        have = [c for c in classes if rng.random() < 0.4]
+        glyphs["uni25CC"] = {"cs": [boxc(50, 100, 300, 300)], "comps": [], "w": 400 * PS, "h": 0, "u": [0x25CC],
+                             "anchors": [{"n": c, "x": 200 * PS, "y": 450 * PS} for c in have]}
+    return glyphs
+
+
 def cases(tier, seed):
     n = 260 if tier == "quick" else 4000
     rng = random.Random(seed * 104729 + 14)
@@ -69,7 +93,8 @@ def cases(tier, seed):
         names = set()
         for _ in range(nsteps):
             kinds = ["line", "cubic"] if kind in ("RemoveOverlaps",) else None
-            glyphs = gen.glyphset(rng, kinds=kinds, unicodes=(kind == "DottedCircle"))
+            glyphs = dotted_glyphset(rng) if kind == "DottedCircle" and rng.random() < 0.7 else \
+                gen.glyphset(rng, kinds=kinds, unicodes=(kind == "DottedCircle"))
             names |= set(glyphs)
             # per-font metrics differ, so that anything a filter object derives from one font and keeps shows on the next
             info = {"capHeight": rng.choice([700, 600, 720, 701]), "xHeight": rng.choice([500, 420, 480, 499])}
